@@ -351,7 +351,7 @@ pub fn gen_case(t: &mut Tape) -> (Script, Vec<LifePlan>) {
     let mut lives = vec![];
     let mut wall = s.start_wall_ns;
     for l in 0..nl {
-        let mut lp = LifePlan::new(false, 1 + t.choose(2), None);
+        let mut lp = LifePlan::new(false, 1 + t.choose(3), None);
         if l > 0 {
             // time between boots: later, slightly later, or the clock went back
             wall += match t.choose(5) {
